@@ -29,7 +29,7 @@ def run(ctx):
         hcases.append({"id": i, "ops": [{"op": "build", "sent": sent}], "opts": {"reparse": False},
                        "expect": [[{"res": "ok", "text": sent["text"], "bnd": sent["bnd"], "ntags": 1,
                                     "tags": sent["tags"], "tokens": c["tokens"]}]],
-                       "key": "bnd=" + "".join("NWU"[b] for b in sent["bnd"])})
+                       "key": ("bnd=" if sent["text"][0] == 97 else "special:bnd=") + "".join("NWU"[b] for b in sent["bnd"])})
         if 2 in sent["bnd"]:
             ctx.nontriv(tuple(sent["bnd"]))
         if i % 3001 == 7:
